@@ -1,1 +1,5 @@
 # check(id, level, technique, text, note, design)
+check("C01", "exploration", "reference-model monitor (independent three-valued least-fixpoint evaluator) over Server.Check answers, every request under forced strategy modes",
+      "Every Check answer on seeded models/tuples/contexts over a bounded vocabulary is compared with an independent reference semantics that is first calibrated against the repository's own 1146 YAML expectations; each request runs under the default-only and the fast-strategy planner modes (hook H1). Held on the cases listed in the evidence — not a proof over all models.",
+      "Trusted: harness/ref (3-valued Kleene lfp, own tuple validator, template condition evaluator), generator reach (4 types, depth<=3, 3 ids/type), memory backend in quick (sqlite added in thorough). Known findings are matched by executable deviation models, see known_findings.json.",
+      "DESIGN.md §5 C01, §3.2")
